@@ -196,3 +196,20 @@ Theorem C08_inline_by_key : C08_inline_by_key_stmt.
 Proof. exact (conj raw_url_retargeted move_dir_inline_rebased). Qed.
 Check C08_inline_by_key : C08_inline_by_key_stmt.
 Print Assumptions C08_inline_by_key.
+
+(* every inline note link the reader builds is kept by the key it resolves to from the note's directory, so
+   change_key hits it exactly when it resolves to the renamed note (and reads as a note url) *)
+Theorem C08_inline_hit_resolved :
+  forall old url dir,
+    is_ref_url url = true ->
+    change_key_inline as_found old "n" (to_ginline dir (Link url "" Regular [])) =
+    if is_ref_url (from_rel_link_url url dir) && String.eqb (from_rel_link_url url dir) old
+    then Link "n" "" Regular [] else Link (from_rel_link_url url dir) "" Regular [].
+Proof. exact link_hits_resolved. Qed.
+Check C08_inline_hit_resolved :
+  forall old url dir,
+    is_ref_url url = true ->
+    change_key_inline as_found old "n" (to_ginline dir (Link url "" Regular [])) =
+    if is_ref_url (from_rel_link_url url dir) && String.eqb (from_rel_link_url url dir) old
+    then Link "n" "" Regular [] else Link (from_rel_link_url url dir) "" Regular [].
+Print Assumptions C08_inline_hit_resolved.
